@@ -1011,7 +1011,11 @@ pub fn generate(tier: &str, r: &mut Rng, emit: &mut dyn FnMut(Case)) {
         let tag = format!("k{} a{} v{}{} c{} d{} f{} nb{} {}", c.opts.kind, c.opts.align, if c.opts.v5 { 5 } else { 4 }, if c.opts.legacy { "L" } else { "" }, c.opts.comp, c.opts.dh, c.opts.fdh, c.batches.len(), types.join("+"));
         emit(Case::new("c04.roundtrip", args.clone(), &["c04.roundtrip.spec"], tag.clone()));
         if c.derived.is_empty() { continue }
-        if c.opts.kind != 3 { emit(Case::new("c04.messages", args.clone(), &["c04.messages"], tag.clone())) }
+        // the message-sequence model decides "same / extended / replaced dictionary" by LOGICAL equality of the values;
+        // arrow's ArrayData equality on RunEndEncoded values is not purely logical (compare_dictionaries then falls back
+        // to a full replacement, which still round-trips): such dictionaries are left to the round-trip suites
+        let ree_dict = c.cols.iter().any(|col| any_ty(&col.ty, &|x| matches!(x, Ty::Dict { v, .. } if any_ty(v, &|y| matches!(y, Ty::Ree { .. })))));
+        if c.opts.kind != 3 && !ree_dict { emit(Case::new("c04.messages", args.clone(), &["c04.messages"], tag.clone())) }
         if c.opts.kind == 0 { emit(Case::new("c04.file_layout", args.clone(), &["c04.file_layout.post1"], tag.clone())) }
         if !c.cols.is_empty() && !c.batches.is_empty() {
             let mut a2 = args.clone(); a2.push(gs(&[r.below(4) as i64, r.below(4) as i64]));
